@@ -2,7 +2,7 @@
 From PV Require Import Engine EngineProofs.
 Open Scope string_scope.
 Notation RG := (list val -> option string -> option string -> st -> R).
-Notation RP := (string -> option (list val) -> option string -> option string -> st -> R).
+Notation RP := (string -> option (list string) -> option (list val) -> option string -> option string -> st -> R).
 
 (** call runs the named groups (with their own handlers) to completion, then execution
     resumes right after the calling step: [OOk] lets the enclosing loops/steps continue
